@@ -2875,12 +2875,21 @@ QUERIES["C14"] = QUERIES.get("C14", []) + QUERIES_C14
 # ------------------------------------------------------------------------------------------------
 # C02 / C08: remove_prefix_filtered over the records table
 # ------------------------------------------------------------------------------------------------
-from queries_c02 import QUERIES_C02  # noqa: E402
+from queries_c02 import QUERIES_C02, QUERIES_LOCAL  # noqa: E402
 for _p in ("C02", "C08"):
     QUERIES[_p] = QUERIES.get(_p, []) + QUERIES_C02
+for _p in ("C02", "C07"):
+    QUERIES[_p] = QUERIES.get(_p, []) + QUERIES_LOCAL    # C07: no local entry or deletion without the write secret
 
 
 # the rebuild of the head table (C18's queries) is also what C13 says about heads of an older database
 QUERIES["C13"] = QUERIES.get("C13", []) + [q_c18_heads_rebuild]
 # a failing request must not lose acknowledged writes (C14: "shutdown hands back a store containing every acknowledged write")
 QUERIES["C14"] = QUERIES.get("C14", []) + [q_c06_txn_glue]
+
+
+# ------------------------------------------------------------------------------------------------
+# C05: which index / range / residual filters a query is turned into (IndexKind::from, QueryIterator::new)
+# ------------------------------------------------------------------------------------------------
+from queries_c05new import QUERIES_C05NEW  # noqa: E402
+QUERIES["C05"] = QUERIES.get("C05", []) + QUERIES_C05NEW
